@@ -266,6 +266,11 @@ func genFunction(prog *ssa.Program, cs *Contracts, fn *ssa.Function, fc *FuncCon
 			}
 		}
 		for _, cl := range fc.Clauses {
+			if cl.Kind == "exitinst" {
+				c.assume(rst.reach, c.lemmaInstance(envE, cl.Src, cl.File, cl.Line))
+			}
+		}
+		for _, cl := range fc.Clauses {
 			if cl.Kind == "canary" {
 				o := c.oblige(rst, "canary", cl.Label, cl.Props, c.evalBool(envE, cl.Expr), fn.Pos(), "canary (a false postcondition that must not be provable): "+cl.Src)
 				o.Canary = true
